@@ -12,7 +12,9 @@ Observed(s, r) ==
     /\ Len(r.elems) = Len(s) + 3
     /\ \A i \in 1..Len(r.elems) : r.elems[i] = IF i <= Len(s) THEN s[i] ELSE 0
 
-StepOfImpl(s, r) == LET x == S!CallStep(s, r) IN
+\* "end": the execution is over and its list / array released: nothing json-c allocated during it remains
+StepOfImpl(s, r) == IF r.op = "end" THEN [ok |-> r.leak = 0, st |-> s] ELSE
+                    LET x == S!CallStep(s, r) IN
                     IF x.ok THEN [ok |-> Observed(x.s, r) /\ {r.freed[i] : i \in 1..Len(r.freed)} = x.freed, st |-> x.s]
                     ELSE [ok |-> FALSE, st |-> s]
 TraceLog == ndJsonDeserialize(IOEnv.TRACE)
